@@ -1,9 +1,9 @@
-\* C15/C09 with an item middleware that retries: batches up to 3 items over a small outcome set including retriedSuccess
+\* C15/C09 with an item middleware that retries: batches up to 3 items over a small outcome set including retriedSuccess and deniedByStage
 SPECIFICATION Spec
 CONSTANTS
   Rids = {1}
   MaxItems = 3
-  Outcomes = {"success", "successSetsId", "retriedSuccess", "unrouted"}
+  Outcomes = {"success", "successSetsId", "retriedSuccess", "deniedByStage", "unrouted"}
   Options = {"unset", "Stop"}
 INVARIANTS Emit
 CHECK_DEADLOCK FALSE
